@@ -35,7 +35,8 @@ class V:
     def __call__(self, *objs):
         if self.i % 4 == 0:
             return None
-        return Res(("res", self.i, tuple(self.inv.get(id(o), "?") for o in objs)))
+        # `?super` : the factory was handed a super proxy instead of the underlying object, `?`: some other foreign object
+        return Res(("res", self.i, tuple(self.inv.get(id(o), "?super" if type(o) is super else "?") for o in objs)))
 
 
 def run(lines, out, args):
